@@ -50,6 +50,10 @@ func (o Obj) MarshalJSON() ([]byte, error) {
 	return RenderJSON(o, nil), nil
 }
 
+// YAMLRawKey: a key with this prefix is written without quotes in YAML (so that it is an integer, boolean, float
+// or null key there) and as the plain string in JSON.
+const YAMLRawKey = "~yamlraw~"
+
 // KeyOrder yields, for the i-th object met in document order with n keys, the
 // order in which to emit the keys. nil = as stored.
 type KeyOrder struct {
@@ -231,6 +235,9 @@ func yamlScalar(v any) (string, bool) {
 // yamlKey: keys that look like plain identifiers are left unquoted (more
 // natural YAML, and exercises the plain-scalar path); others are quoted.
 func yamlKey(k string) string {
+	if strings.HasPrefix(k, YAMLRawKey) {
+		return strings.TrimPrefix(k, YAMLRawKey) // 1: / true: / null: - a non-string key in YAML
+	}
 	if k == "" {
 		return `""`
 	}
